@@ -180,6 +180,9 @@ func cmdCheck(args []string) int {
 	work, _ := os.MkdirTemp("", "govc-"+id+"-")
 	if !*keep {
 		defer os.RemoveAll(work)
+	} else {
+		keepAll = true
+		fmt.Println("queries kept in", work)
 	}
 	d := &discharger{dir: work, seed: seed, timeoutMs: 10000, retryMs: 30000, par: 8}
 	if *tier == "thorough" {
@@ -199,17 +202,31 @@ func cmdCheck(args []string) int {
 	for _, j := range jobs {
 		j.u.prepare(j.o)
 	}
-	d.all(jobs)
+	// obligations that match a known finding: the plain query gets a short
+	// time limit (its failure is expected; the deciding query is the one with
+	// the finding's inputs excluded, run below)
+	var plain, withKF []job
+	for _, j := range jobs {
+		if j.o.except != "" {
+			withKF = append(withKF, j)
+		} else {
+			plain = append(plain, j)
+		}
+	}
+	d.all(plain)
+	if len(withKF) > 0 {
+		dk := &discharger{dir: work, seed: seed, timeoutMs: 3000, retryMs: 3000, par: 8}
+		dk.all(withKF)
+		d.solverT += dk.solverT
+	}
 	// vacuity covers
 	var coverJobs []job
 	for _, u := range units {
 		for _, c := range u.covers {
-			if *tier == "thorough" || strings.HasSuffix(c.name, "#cover.requires") {
-				coverJobs = append(coverJobs, job{u: u, o: c})
-			}
+			coverJobs = append(coverJobs, job{u: u, o: c})
 		}
 	}
-	cd := &discharger{dir: work, seed: seed, timeoutMs: 5000, retryMs: 5000, par: 8}
+	cd := &discharger{dir: work, seed: seed, timeoutMs: 2000, retryMs: 2000, par: 8}
 	cd.allCovers(coverJobs)
 	var vacuous []string
 	for _, j := range coverJobs {
